@@ -5,6 +5,7 @@ S45 == {4, 5} \X {1, 2, 3}
 S6 == {6} \X {1, 2, 3}
 SDeep == {<<4, 2>>}
 SDeepT == {<<4, 2>>, <<5, 2>>, <<5, 3>>}
+SGen == {<<4, 2>>, <<5, 3>>, <<6, 1>>}
 STiny == {<<4, 2>>, <<5, 3>>}
 (* one shape per TLC process in the thorough tier: NP and D come from the environment *)
 EnvShapes == {<<atoi(IOEnv.NP), atoi(IOEnv.D)>>}
